@@ -2,23 +2,58 @@ package hackpadfs
 
 import "strings"
 
+// stripErrPathPrefix translates the paths inside 'err' from the namespace of a delegated file system back into the caller's namespace.
+// 'name' is the caller's path and 'mountSubPath' is the path the call was delegated with:
+// either 'mountSubPath' ends with 'name' (a sub file system rooted at some base directory),
+// or 'name' ends with 'mountSubPath' (a file system mounted at some mount point).
 func stripErrPathPrefix(err error, name, mountSubPath string) error {
 	if err == nil {
 		return err
 	}
-	prefix := strings.TrimSuffix(mountSubPath, name)
+	translate := func(p string) string { return p }
+	switch {
+	case name == mountSubPath:
+	case name == "." || strings.HasSuffix(mountSubPath, "/"+name):
+		// sub-style: mountSubPath == base/name
+		base := mountSubPath
+		if name != "." {
+			base = strings.TrimSuffix(mountSubPath, "/"+name)
+		}
+		translate = func(p string) string {
+			switch {
+			case p == base:
+				return "."
+			case strings.HasPrefix(p, base+"/"):
+				return strings.TrimPrefix(p, base+"/")
+			default:
+				return p
+			}
+		}
+	case mountSubPath == "." || strings.HasSuffix(name, "/"+mountSubPath):
+		// mount-style: name == mountPoint/mountSubPath
+		mountPoint := name
+		if mountSubPath != "." {
+			mountPoint = strings.TrimSuffix(name, "/"+mountSubPath)
+		}
+		translate = func(p string) string {
+			if p == "." || p == "" {
+				return mountPoint
+			}
+			return mountPoint + "/" + p
+		}
+	}
 	switch err := err.(type) {
 	case *PathError:
 		return &PathError{
 			Op:   err.Op,
-			Path: strings.TrimPrefix(err.Path, prefix),
+			Path: translate(err.Path),
 			Err:  err.Err,
 		}
 	case *LinkError:
 		return &LinkError{
 			Op:  err.Op,
-			Old: strings.TrimPrefix(err.Old, prefix),
-			New: strings.TrimPrefix(err.New, prefix),
+			Old: translate(err.Old),
+			New: translate(err.New),
 			Err: err.Err,
 		}
 	default:
